@@ -33,3 +33,10 @@ Definition xstep' (wasm_admin : addr) (w : world) (x : xop) : world :=
 
 Definition xrun (wasm_admin : addr) (w : world) (xs : list xop) : world :=
   fold_left (xstep' wasm_admin) xs w.
+
+Fixpoint xdeposited (xs : list xop) (d : denom) : N :=
+  match xs with
+  | [] => 0
+  | XOp (Deposit d' amt) :: rest => if d' =? d then amt + xdeposited rest d else xdeposited rest d
+  | _ :: rest => xdeposited rest d
+  end.
